@@ -472,4 +472,481 @@ theorem slotsEq_refl (S : Schema) : ∀ (sl : List Val) (fs : List FieldD), Slot
 termination_by structural sl => sl
 end
 
+/-! ### typing of a slot list, position by position, as `dumpSlots` and `SlotsEqv` walk it -/
+
+/-- slot `k + j` is well-typed for field `k + j`, and holds PLACEHOLDER when the field is an
+    unselected oneof member -/
+def SlotsT (S : Schema) (fs : List FieldD) (cur : List (Option Nat)) : Nat → List Val → Prop
+  | _, [] => True
+  | k, v :: vs =>
+    (∃ f, fs[k]? = some f ∧ SlotOk S f v ∧ (hidden f k cur = true → v = .ph)) ∧ SlotsT S fs cur (k + 1) vs
+
+theorem slotsT_of (S : Schema) (fs : List FieldD) (cur : List (Option Nat)) : ∀ (vs : List Val) (k : Nat),
+    SlotsOk S (fs.drop k) vs →
+    (∀ j f, fs[k + j]? = some f → hidden f (k + j) cur = true → vs.getD j .ph = .ph) → SlotsT S fs cur k vs
+  | [], _, _, _ => trivial
+  | v :: vs, k, h, hi => by
+    cases hd : fs.drop k with
+    | nil => rw [hd] at h; cases h
+    | cons f fs' =>
+      rw [hd] at h
+      cases h with
+      | cons _ _ _ _ hv hr =>
+        have hf : fs[k]? = some f := by
+          have := List.getElem?_drop (xs := fs) (i := k) (j := 0)
+          rw [hd] at this
+          simpa using this.symm
+        have hfs' : fs.drop (k + 1) = fs' := by
+          have := drop_cons_of_get fs k f hf
+          rw [hd] at this
+          injection this with _ h2
+          exact h2.symm
+        refine ⟨⟨f, hf, hv, fun hh => ?_⟩, slotsT_of S fs cur vs (k + 1) (hfs' ▸ hr) (fun j f' hf' hh' => ?_)⟩
+        · simpa using hi 0 f (by simpa using hf) (by simpa using hh)
+        · have e : k + 1 + j = k + (j + 1) := by omega
+          rw [e] at hf' hh'
+          simpa using hi (j + 1) f' hf' hh'
+
+theorem hidden_group (f : FieldD) (i : Nat) (cur : List (Option Nat)) (h : hidden f i cur = true) :
+    ∃ g, f.group = some g ∧ cur.getD g Option.none ≠ some i := by
+  unfold hidden at h
+  cases hg : f.group with
+  | none => rw [hg] at h; simp at h
+  | some g => rw [hg] at h; exact ⟨g, rfl, by simpa using h⟩
+
+theorem msgOk_slotsT (S : Schema) (c : Nat) (sl : List Val) (ow : Bool) (unk : Bytes) (cur : List (Option Nat))
+    (h : MsgOk S (.msg c sl ow unk cur)) : ∃ d, S[c]? = some d ∧ SlotsT S d.fields cur 0 sl := by
+  cases h with
+  | mk _ d _ _ _ _ hd _ _ _ _ _ hinv _ hsl _ =>
+    refine ⟨d, hd, slotsT_of S d.fields cur sl 0 (by simpa using hsl) (fun j f hf hh => ?_)⟩
+    obtain ⟨g, hg, hc⟩ := hidden_group f (0 + j) cur hh
+    simp only [Nat.zero_add] at hf hc
+    exact hinv j f g hf hg hc
+
+/-! ### what `SlotOk` says about a slot, by the shape of the value -/
+
+theorem slotOk_ph (S : Schema) (f : FieldD) (h : SlotOk S f .ph) : f.optional = false := by
+  cases h with
+  | flat _ _ _ hv => simpa [flatSlotOk] using hv
+  | unsetAny _ ho => exact ho
+  | unsetSub _ _ _ ho => exact ho
+  | unsetTime _ _ _ ho => exact ho
+  | unsetWrap _ _ _ ho => exact ho
+  | wrap _ _ _ _ hv => simp [scalarOk] at hv
+  | unsetMapS _ hm => exact hm.opt
+  | unsetMapM _ _ hm => exact hm.opt
+
+theorem defKind_none_of (f : FieldD) (hr : f.repeated = false) (hm : f.ty ≠ .map)
+    (h : f.optional = true ∨ f.wraps.isSome = true) : f.defKind = .none := by
+  unfold FieldD.defKind
+  have : (f.ty == PType.map) = false := by simpa using hm
+  rcases h with h | h <;> simp [hr, this, h]
+
+theorem slotOk_none (S : Schema) (f : FieldD) (h : SlotOk S f .none) : f.optional = true ∨ f.defKind = .none := by
+  cases h with
+  | flat _ _ _ hv => left; simpa [flatSlotOk] using hv
+  | noneAny _ ho => exact Or.inl ho
+  | noneSub _ _ _ ho => exact Or.inl ho
+  | noneTime _ _ _ ho => exact Or.inl ho
+  | noneWrap _ w hw _ =>
+    right
+    exact defKind_none_of f hw.rep (by rw [hw.ty]; decide) (Or.inr (by rw [hw.wr]; rfl))
+  | wrap _ _ _ _ hv => simp [scalarOk] at hv
+
+theorem slotOk_msg (S : Schema) (f : FieldD) (c : Nat) (sl : List Val) (ow : Bool) (unk : Bytes) (cur : List (Option Nat))
+    (h : SlotOk S f (.msg c sl ow unk cur)) : SubField f c ∧ f.repeated = false ∧ MsgOk S (.msg c sl ow unk cur) := by
+  cases h with
+  | flat _ _ _ hv => simp [flatSlotOk, scalarOk] at hv
+  | sub _ _ _ _ _ _ hs hr hm => exact ⟨hs, hr, hm⟩
+  | wrap _ _ _ _ hv => simp [scalarOk] at hv
+
+theorem slotOk_list (S : Schema) (f : FieldD) (xs : List Val) (h : SlotOk S f (.list xs)) :
+    f.repeated = true ∧ f.optional = false := by
+  cases h with
+  | flat _ _ hff hv =>
+    simp only [flatSlotOk, Bool.and_eq_true] at hv
+    exact ⟨hv.1, (hff.rep hv.1).1⟩
+  | subs _ _ _ hs hr _ => exact ⟨hr, (hs.rep hr).1⟩
+  | wrap _ _ _ _ hv => simp [scalarOk] at hv
+  | tss _ _ ht _ => exact ⟨ht.rep, ht.opt⟩
+  | durs _ _ ht _ => exact ⟨ht.rep, ht.opt⟩
+
+theorem slotOk_dict (S : Schema) (f : FieldD) (ks vs : List Val) (h : SlotOk S f (.dict ks vs)) :
+    f.ty = .map ∧ f.repeated = false ∧ f.optional = false ∧ ks.length = vs.length := by
+  cases h with
+  | flat _ _ _ hv => simp [flatSlotOk, scalarOk] at hv
+  | wrap _ _ _ _ hv => simp [scalarOk] at hv
+  | mapS _ _ _ hm hl _ _ _ => exact ⟨hm.ty, hm.rep, hm.opt, hl⟩
+  | mapM _ _ _ _ hm hl _ _ _ => exact ⟨hm.ty, hm.rep, hm.opt, hl⟩
+  | mapT _ _ _ _ hm hl _ _ _ => exact ⟨hm.ty, hm.rep, hm.opt, hl⟩
+
+/-- a scalar, datetime or timedelta slot value: the field is singular and flat, a wrapper, or a
+    Timestamp / Duration field -/
+def LeafT (f : FieldD) (v : Val) : Prop :=
+  f.repeated = false ∧
+    ((FlatField f ∧ scalarOk f.ty v = true) ∨ (∃ w, WrapField f w ∧ scalarOk w v = true)
+      ∨ (∃ d, TimeField f d ∧ timeValOk d v = true))
+
+theorem slotOk_leaf (S : Schema) (f : FieldD) (v : Val) (hl : scalarV v = true) (h : SlotOk S f v) : LeafT f v := by
+  cases h with
+  | flat _ _ hff hv =>
+    have : flatSlotOk f v = (!f.repeated && scalarOk f.ty v) := by
+      cases v <;> first | rfl | simp [scalarV] at hl
+    rw [this] at hv
+    simp only [Bool.and_eq_true, Bool.not_eq_true'] at hv
+    exact ⟨hv.1, Or.inl ⟨hff, hv.2⟩⟩
+  | ts _ us ht hv => exact ⟨ht.rep, Or.inr (Or.inr ⟨false, ht, by simpa [timeValOk] using hv⟩)⟩
+  | dur _ us ht hv => exact ⟨ht.rep, Or.inr (Or.inr ⟨true, ht, by simpa [timeValOk] using hv⟩)⟩
+  | wrap _ w _ hw hv => exact ⟨hw.rep, Or.inr (Or.inl ⟨w, hw, hv⟩)⟩
+  | _ => simp [scalarV] at hl
+
+theorem leafT_notmap (f : FieldD) (v : Val) (h : LeafT f v) : f.ty ≠ .map := by
+  rcases h.2 with h | ⟨w, h, _⟩ | ⟨d, h, _⟩
+  · have := h.1.sc; unfold isScalarType at this; simp at this; exact this.2
+  · rw [h.ty]; decide
+  · rw [h.ty]; decide
+
+/-! ### a scalar / datetime / timedelta slot that emits no byte holds the default -/
+
+theorem eqDefault_none (S : Schema) (v : Val) (h : eqDefault S .none v = true) : v = .none := by
+  cases v <;> first | rfl | simp [eqDefault] at h
+
+/-- the encoder's `value == default` implies the one of `__eq__` (which also knows `False == 0`) -/
+theorem eqDefault_leaf_defEq (S : Schema) (k : DefKind) (v : Val) (hl : scalarV v = true)
+    (h : eqDefault S k v = true) : defEq S k v = true := by
+  cases v with
+  | ph | none | list _ | dict _ _ | msg _ _ _ _ _ => simp [scalarV] at hl
+  | int i =>
+    simp only [eqDefault, Bool.and_eq_true, beq_iff_eq] at h
+    obtain ⟨hk, hv⟩ := h; subst hk; subst hv; rw [defEq]; rfl
+  | bool b =>
+    simp only [eqDefault, Bool.and_eq_true, beq_iff_eq, Bool.not_eq_true'] at h
+    obtain ⟨hk, hv⟩ := h; subst hk; subst hv; rw [defEq]; rfl
+  | f32 b =>
+    simp only [eqDefault, Bool.and_eq_true, beq_iff_eq, f32IsZero, Bool.or_eq_true] at h
+    obtain ⟨hk, hv⟩ := h; subst hk; rw [defEq]
+    rcases hv with hv | hv <;> subst hv <;> decide
+  | f64 b =>
+    simp only [eqDefault, Bool.and_eq_true, beq_iff_eq, f64IsZero, Bool.or_eq_true] at h
+    obtain ⟨hk, hv⟩ := h; subst hk; rw [defEq]
+    rcases hv with hv | hv <;> subst hv <;> decide
+  | str b =>
+    simp only [eqDefault, Bool.and_eq_true, beq_iff_eq, List.isEmpty_iff] at h
+    obtain ⟨hk, hv⟩ := h; subst hk; subst hv; rw [defEq]; rfl
+  | byt b =>
+    simp only [eqDefault, Bool.and_eq_true, beq_iff_eq, List.isEmpty_iff] at h
+    obtain ⟨hk, hv⟩ := h; subst hk; subst hv; rw [defEq]; rfl
+  | ts us =>
+    simp only [eqDefault, Bool.and_eq_true, beq_iff_eq] at h
+    obtain ⟨hk, hv⟩ := h; subst hk; subst hv; rw [defEq]; rfl
+  | dur us =>
+    simp only [eqDefault, Bool.and_eq_true, beq_iff_eq] at h
+    obtain ⟨hk, hv⟩ := h; subst hk; subst hv; rw [defEq]; rfl
+
+/-- the contrapositive of `frame_ne_nil` -/
+theorem frame_nil (num : Nat) (t : PType) (pre : Bytes) (se w : Bool) (h : frame num t pre se w = .ok []) :
+    wireLenDelimTypes.contains t = true ∧ pre = [] ∧ se = false ∧ w = false := by
+  by_cases hc : wireLenDelimTypes.contains t = true ∧ pre = [] ∧ se = false ∧ w = false
+  · exact hc
+  · exfalso
+    apply frame_ne_nil num t pre se w [] h _ rfl
+    intro hl
+    by_cases h1 : pre = []
+    · by_cases h2 : se = true
+      · exact Or.inr (Or.inl h2)
+      · by_cases h3 : w = true
+        · exact Or.inr (Or.inr h3)
+        · exact absurd ⟨hl, h1, by simpa using h2, by simpa using h3⟩ hc
+    · exact Or.inl h1
+
+theorem leaf_emit (S : Schema) (f : FieldD) (sel : Bool) (v : Val) (hl : scalarV v = true) (ht : LeafT f v)
+    (h : dumpSlot S f false sel v = .ok []) : f.optional = false ∧ eqDefault S f.defKind v = true := by
+  obtain ⟨se, hse, hds⟩ := dumpSlot_leaf S f sel v hl
+  rw [hds] at h
+  by_cases hc : (eqDefault S f.defKind v && !((f.group.isSome || f.optional) || sel)) = true
+  · simp only [Bool.and_eq_true, Bool.not_eq_true', Bool.or_eq_false_iff] at hc
+    exact ⟨hc.2.1.2, hc.1⟩
+  · rw [if_neg hc] at h
+    unfold serializeScalar at h
+    obtain ⟨pre, hpre, h⟩ := bind_eq_ok _ _ _ h
+    obtain ⟨hlen, hp, hse', hw⟩ := frame_nil _ _ _ _ _ h
+    subst hp
+    have ho : f.optional = false := by
+      cases ho : f.optional with
+      | false => rfl
+      | true => rw [hse ho] at hse'; cases hse'
+    have hw' : f.wraps = Option.none := by
+      cases hwr : f.wraps with
+      | none => rfl
+      | some w => rw [hwr] at hw; simp at hw
+    refine ⟨ho, ?_⟩
+    have hty : f.ty = .string ∨ f.ty = .bytes ∨ f.ty = .message ∨ f.ty = .map := by
+      simpa [wireLenDelimTypes] using hlen
+    rcases ht.2 with ⟨hff, hv⟩ | ⟨w, hwf, _⟩ | ⟨d, htf, hv⟩
+    · have hdk := flat_defKind_singular f hff ht.1
+      rw [ho] at hdk
+      simp only [Bool.false_eq_true, if_false] at hdk
+      have hsc := hff.sc
+      rcases hty with e | e | e | e
+      · rw [e] at hv hpre
+        rw [hdk, e]
+        cases v <;> simp [scalarOk, intInRange] at hv
+        simp [prepScalar, prepPlain, isFixed, fixedTypes] at hpre
+        subst hpre
+        rfl
+      · rw [e] at hv hpre
+        rw [hdk, e]
+        cases v <;> simp [scalarOk, intInRange] at hv
+        simp [prepScalar, prepPlain, isFixed, fixedTypes] at hpre
+        subst hpre
+        rfl
+      · rw [e] at hsc; simp [isScalarType] at hsc
+      · rw [e] at hsc; simp [isScalarType] at hsc
+    · rw [hwf.wr] at hw'; cases hw'
+    · have hdk : f.defKind = msgKindDef f.kind := by
+        unfold FieldD.defKind
+        simp [ht.1, htf.ty, ho, hw']
+      rw [hdk, htf.kind]
+      rw [htf.ty, hw'] at hpre
+      cases d with
+      | false =>
+        obtain ⟨us, hv', _⟩ := timeValOk_ts v hv
+        subst hv'
+        simp only [prepScalar, beq_self_eq_true, if_true] at hpre
+        have : us = 0 := by
+          by_contra hne
+          exact tsBytes_ne_nil us [] hpre hne rfl
+        subst this; rfl
+      | true =>
+        obtain ⟨us, hv', _⟩ := timeValOk_dur v hv
+        subst hv'
+        simp only [prepScalar, beq_self_eq_true, if_true] at hpre
+        have : us = 0 := by
+          by_contra hne
+          exact durBytes_ne_nil us [] hpre hne rfl
+        subst this; rfl
+
+/-- a non-empty list emits at least one byte -/
+theorem list_emit (S : Schema) (f : FieldD) (sel : Bool) (xs : List Val)
+    (h : dumpSlot S f false sel (.list xs) = .ok []) : xs = [] := by
+  cases xs with
+  | nil => rfl
+  | cons x xs =>
+    exfalso
+    rw [dumpSlot] at h
+    have he : eqDefault S f.defKind (.list (x :: xs)) = false := by simp [eqDefault]
+    simp only [Bool.false_eq_true, if_false, he, Bool.false_and] at h
+    split at h
+    · rename_i hpk
+      obtain ⟨buf, hbuf, h⟩ := bind_eq_ok _ _ _ h
+      refine frame_ne_nil _ _ _ _ _ _ h (fun _ => Or.inl ?_) rfl
+      rw [prepPacked] at hbuf
+      obtain ⟨p, hp, hbuf⟩ := bind_eq_ok _ _ _ hbuf
+      obtain ⟨q, _, hbuf⟩ := bind_eq_ok _ _ _ hbuf
+      injection hbuf with hbuf; rw [← hbuf]
+      apply app_ne_nil_left
+      unfold prepScalar at hp
+      simp only [isPacked_not_message f.ty hpk, Bool.false_eq_true, if_false] at hp
+      exact prepPlain_packed_ne_nil _ _ _ hpk hp
+    · unfold dumpItems at h
+      obtain ⟨p, _, h⟩ := bind_eq_ok _ _ _ h
+      simp only at h
+      obtain ⟨q, _, h⟩ := bind_eq_ok _ _ _ h
+      injection h with h
+      have := (List.append_eq_nil_iff.1 h).1
+      split at this
+      · cases this
+      · rename_i hne; rw [this] at hne; simp at hne
+
+/-- a non-empty dict emits at least one byte -/
+theorem dict_emit (S : Schema) (f : FieldD) (sel : Bool) (ks vs : List Val) (hl : ks.length = vs.length)
+    (h : dumpSlot S f false sel (.dict ks vs) = .ok []) : ks = [] := by
+  cases ks with
+  | nil => rfl
+  | cons k ks =>
+    exfalso
+    cases vs with
+    | nil => simp at hl
+    | cons v vs =>
+      rw [dumpSlot] at h
+      have he : eqDefault S f.defKind (.dict (k :: ks) (v :: vs)) = false := by simp [eqDefault]
+      simp only [Bool.false_eq_true, if_false, he, Bool.false_and] at h
+      unfold dumpEntries at h
+      obtain ⟨sk, _, h⟩ := bind_eq_ok _ _ _ h
+      obtain ⟨sv, _, h⟩ := bind_eq_ok _ _ _ h
+      obtain ⟨e, hfr, h⟩ := bind_eq_ok _ _ _ h
+      obtain ⟨rest, _, h⟩ := bind_eq_ok _ _ _ h
+      injection h with h
+      have := (List.append_eq_nil_iff.1 h).1
+      subst this
+      exact frame_ne_nil _ _ _ _ _ _ hfr (fun _ => Or.inr (Or.inl rfl)) rfl
+
+/-! ### a slot that emits no byte (or that the encoder finds equal to the default) equals the
+    slot of a fresh instance under `__eq__` -/
+
+/-- one iteration of `slotsEqFresh` -/
+def isDefSlot (S : Schema) (f : FieldD) (v : Val) : Bool :=
+  match v with
+  | .ph => true
+  | v => eqDefault S f.defKind v
+
+theorem slotsEqFresh_cons (S : Schema) (f : FieldD) (fs : List FieldD) (v : Val) (vs : List Val) :
+    slotsEqFresh S (f :: fs) (v :: vs) = (isDefSlot S f v && slotsEqFresh S fs vs) := by
+  cases v <;> (rw [slotsEqFresh]; all_goals first | rfl | (intros; contradiction))
+
+theorem isDefSlot_set (S : Schema) (f : FieldD) (v : Val) (h : v ≠ .ph) : isDefSlot S f v = eqDefault S f.defKind v := by
+  cases v <;> first | rfl | exact absurd rfl h
+
+theorem leaf_default (S : Schema) (v : Val) (f : FieldD) (hid sel : Bool) (hl : scalarV v = true) (ht : SlotOk S f v)
+    (hh : hid = true → v = .ph)
+    (h : dumpSlot S f hid sel v = .ok [] ∨ eqDefault S f.defKind v = true) : slotDefB S f v = true := by
+  have hhid : hid = false := by
+    cases hid with
+    | false => rfl
+    | true => rw [hh rfl] at hl; simp [scalarV] at hl
+  subst hhid
+  have hT := slotOk_leaf S f v hl ht
+  have key : f.optional = false ∧ eqDefault S f.defKind v = true := by
+    rcases h with h | h
+    · exact leaf_emit S f sel v hl hT h
+    · refine ⟨?_, h⟩
+      cases ho : f.optional with
+      | false => rfl
+      | true =>
+        rw [defKind_none_of f hT.1 (leafT_notmap f v hT) (Or.inl ho)] at h
+        rw [eqDefault_none S v h] at hl
+        simp [scalarV] at hl
+  have hd := eqDefault_leaf_defEq S f.defKind v hl key.2
+  unfold slotDefB
+  cases v <;> first | (simp [scalarV] at hl; done) | (simp only [key.1, Bool.false_eq_true, if_false]; exact hd)
+
+mutual
+theorem slot_default (S : Schema) : ∀ (v : Val) (f : FieldD) (hid sel : Bool), SlotOk S f v → (hid = true → v = .ph) →
+    (dumpSlot S f hid sel v = .ok [] ∨ isDefSlot S f v = true) →
+    slotDefB S f v = true
+  | .ph, f, _, _, ht, _, _ => by simp [slotDefB, slotOk_ph S f ht]
+  | .none, f, _, _, ht, _, _ => by
+    unfold slotDefB
+    rcases slotOk_none S f ht with ho | hk
+    · simp [ho]
+    · cases ho : f.optional <;> simp [hk, atomDefEq_none]
+  | .list xs, f, hid, sel, ht, hh, h => by
+    have hhid : hid = false := by
+      cases hid with
+      | false => rfl
+      | true => cases hh rfl
+    subst hhid
+    obtain ⟨hr, ho⟩ := slotOk_list S f xs ht
+    have hdk : f.defKind = .list := by unfold FieldD.defKind; simp [hr]
+    have hx : xs = [] := by
+      rcases h with h | h
+      · exact list_emit S f sel xs h
+      · change eqDefault S f.defKind (.list xs) = true at h
+        rw [hdk] at h; simpa [eqDefault] using h
+    subst hx
+    simp [slotDefB, ho, hdk, defEq]
+  | .dict ks vs, f, hid, sel, ht, hh, h => by
+    have hhid : hid = false := by
+      cases hid with
+      | false => rfl
+      | true => cases hh rfl
+    subst hhid
+    obtain ⟨hty, hr, ho, hl⟩ := slotOk_dict S f ks vs ht
+    have hdk : f.defKind = .dict := by unfold FieldD.defKind; simp [hr, hty]
+    have hx : ks = [] := by
+      rcases h with h | h
+      · exact dict_emit S f sel ks vs hl h
+      · change eqDefault S f.defKind (.dict ks vs) = true at h
+        rw [hdk] at h; simpa [eqDefault] using h
+    subst hx
+    simp [slotDefB, ho, hdk, defEq]
+  | .msg c sl ow unk cur, f, hid, sel, ht, hh, h => by
+    have hhid : hid = false := by
+      cases hid with
+      | false => rfl
+      | true => cases hh rfl
+    subst hhid
+    obtain ⟨sf, hr, hm⟩ := slotOk_msg S f c sl ow unk cur ht
+    obtain ⟨d, hd, hT⟩ := msgOk_slotsT S c sl ow unk cur hm
+    have hfo := fieldsOf_eq S c d hd
+    have hnm : f.ty ≠ .map := by rw [sf.ty]; decide
+    -- the encoder's comparison with `Sub()`
+    have key : eqDefault S f.defKind (.msg c sl ow unk cur) = true →
+        f.optional = false ∧ slotsDef S (fieldsOf S c) sl = true := by
+      intro he
+      have ho : f.optional = false := by
+        cases ho : f.optional with
+        | false => rfl
+        | true => rw [defKind_none_of f hr hnm (Or.inl ho)] at he; simp [eqDefault] at he
+      have hdk : f.defKind = .msg c := by
+        unfold FieldD.defKind
+        simp [hr, sf.ty, ho, sf.nw, sf.kind, msgKindDef]
+      rw [hdk, eqDefault] at he
+      simp only [beq_self_eq_true, Bool.true_and] at he
+      refine ⟨ho, ?_⟩
+      rw [hfo] at he ⊢
+      exact slots_default S sl d.fields cur 0 hT (Or.inr (by simpa using he))
+    have fin : f.optional = false ∧ slotsDef S (fieldsOf S c) sl = true := by
+      rcases h with h | h
+      · rw [dumpSlot] at h
+        simp only [Bool.false_eq_true, if_false] at h
+        by_cases hc : (eqDefault S f.defKind (.msg c sl ow unk cur) && !(f.group.isSome || f.optional || ow || sel)) = true
+        · simp only [Bool.and_eq_true] at hc
+          exact key hc.1
+        · rw [if_neg hc] at h
+          obtain ⟨body, hbody, h⟩ := bind_eq_ok _ _ _ h
+          simp only [sf.ty, sf.nw, beq_self_eq_true, Option.isNone_none, Bool.and_self, if_true] at h
+          obtain ⟨_, hp, hse, _⟩ := frame_nil _ _ _ _ _ h
+          have hb : body = [] := (List.append_eq_nil_iff.1 hp).1
+          subst hb
+          simp only [Bool.or_eq_false_iff] at hse
+          refine ⟨hse.2.2, ?_⟩
+          rw [hfo] at hbody ⊢
+          exact slots_default S sl d.fields cur 0 hT (Or.inl hbody)
+      · exact key h
+    have hdk : f.defKind = .msg c := by
+      unfold FieldD.defKind
+      simp [hr, sf.ty, fin.1, sf.nw, sf.kind, msgKindDef]
+    simp [slotDefB, fin.1, hdk, defEq, fin.2]
+  | .int i, f, hid, sel, ht, hh, h => leaf_default S _ f hid sel rfl ht hh h
+  | .bool i, f, hid, sel, ht, hh, h => leaf_default S _ f hid sel rfl ht hh h
+  | .f32 i, f, hid, sel, ht, hh, h => leaf_default S _ f hid sel rfl ht hh h
+  | .f64 i, f, hid, sel, ht, hh, h => leaf_default S _ f hid sel rfl ht hh h
+  | .str i, f, hid, sel, ht, hh, h => leaf_default S _ f hid sel rfl ht hh h
+  | .byt i, f, hid, sel, ht, hh, h => leaf_default S _ f hid sel rfl ht hh h
+  | .ts i, f, hid, sel, ht, hh, h => leaf_default S _ f hid sel rfl ht hh h
+  | .dur i, f, hid, sel, ht, hh, h => leaf_default S _ f hid sel rfl ht hh h
+termination_by structural v => v
+
+theorem slots_default (S : Schema) : ∀ (vs : List Val) (fs : List FieldD) (cur : List (Option Nat)) (k : Nat),
+    SlotsT S fs cur k vs →
+    (dumpSlots S fs cur k vs = .ok [] ∨ slotsEqFresh S (fs.drop k) vs = true) → slotsDef S (fs.drop k) vs = true
+  | [], fs, _, k, _, _ => slotsDef_nil S _
+  | v :: vs, fs, cur, k, hT, h => by
+    obtain ⟨⟨f, hf, hv, hh⟩, hrest⟩ := hT
+    rw [drop_cons_of_get fs k f hf] at h ⊢
+    rw [slotsDef_cons]
+    have hsplit : (dumpSlot S f (hidden f k cur) (selectedInGroup f k cur) v = .ok [] ∧ dumpSlots S fs cur (k + 1) vs = .ok [])
+        ∨ (isDefSlot S f v = true ∧ slotsEqFresh S (fs.drop (k + 1)) vs = true) := by
+      rcases h with h | h
+      · left
+        rw [dumpSlots] at h
+        simp only [hf] at h
+        obtain ⟨a, ha, h⟩ := bind_eq_ok _ _ _ h
+        obtain ⟨b, hb, h⟩ := bind_eq_ok _ _ _ h
+        injection h with h
+        obtain ⟨h1, h2⟩ := List.append_eq_nil_iff.1 h
+        subst h1; subst h2
+        exact ⟨ha, hb⟩
+      · right
+        rw [slotsEqFresh_cons, Bool.and_eq_true] at h
+        exact h
+    rcases hsplit with ⟨h1, h2⟩ | ⟨h1, h2⟩
+    · rw [slot_default S v f (hidden f k cur) (selectedInGroup f k cur) hv hh (Or.inl h1),
+        slots_default S vs fs cur (k + 1) hrest (Or.inl h2)]; rfl
+    · rw [slot_default S v f (hidden f k cur) (selectedInGroup f k cur) hv hh (Or.inr h1),
+        slots_default S vs fs cur (k + 1) hrest (Or.inr h2)]; rfl
+termination_by structural vs => vs
+end
+
 end Bp
